@@ -173,7 +173,7 @@ func vcPair() (int, int) {
 }
 
 // vcCell builds the state of one cell and runs the calls.
-func vcCell(mode string, cb, in, outp, reuse bool, meth string, arg, rep int) string {
+func vcCell(mode string, cb, in, outp, reuse, tmo bool, meth string, arg, rep int) string {
 	fd, peer := vcPair()
 	peerOpen := true
 	defer func() {
@@ -222,6 +222,13 @@ func vcCell(mode string, cb, in, outp, reuse bool, meth string, arg, rep int) st
 			return "setup-failed malloc"
 		}
 	}
+	if tmo {
+		// a read timeout is configured and an earlier read has waited and timed out (the reused timer exists)
+		c.SetReadTimeout(2 * time.Millisecond)
+		if _, err := c.Next(1000); err == nil || !errors.Is(err, ErrReadTimeout) {
+			return fmt.Sprintf("setup-failed timed read: %v", err)
+		}
+	}
 	poll := c.operator.poll
 	op := c.operator
 	waitClosed := func() bool {
@@ -233,7 +240,9 @@ func vcCell(mode string, cb, in, outp, reuse bool, meth string, arg, rep int) st
 		// our callback was registered last, so it runs first; the finalizer registered by init runs last and
 		// ends with closeBuffer, which recycles the (always empty) output buffer after the input buffer:
 		// the close has completed when the output buffer's chain is gone.
-		return vcWait(func() bool { return atomic.LoadUint32(&c.closed) > 0 && c.outputBuffer.Len() == 0 && vcHeadNil(c.outputBuffer) })
+		return vcWait(func() bool {
+			return atomic.LoadUint32(&c.closed) > 0 && c.outputBuffer.Len() == 0 && vcHeadNil(c.outputBuffer)
+		})
 	}
 	switch mode {
 	case "user":
@@ -346,16 +355,16 @@ func VerifClosedMain(args []string) int {
 	atob := func(s string) bool { return s == "1" }
 	runLine := func(line string) string {
 		t := strings.Fields(line)
-		if len(t) != 9 || t[0] != "cell" {
+		if len(t) != 10 || t[0] != "cell" {
 			return "bad-op"
 		}
 		var arg, rep int
-		fmt.Sscanf(t[7], "%d", &arg)
-		fmt.Sscanf(t[8], "%d", &rep)
+		fmt.Sscanf(t[8], "%d", &arg)
+		fmt.Sscanf(t[9], "%d", &rep)
 		// watchdog: a cell that never returns (e.g. a Close spinning on a token that was never given back)
 		// is reported as stuck and abandoned; the harness goes on with the next cell
 		ch := make(chan string, 1)
-		go func() { ch <- vcCell(t[1], atob(t[2]), atob(t[3]), atob(t[4]), atob(t[5]), t[6], arg, rep) }()
+		go func() { ch <- vcCell(t[1], atob(t[2]), atob(t[3]), atob(t[4]), atob(t[5]), atob(t[6]), t[7], arg, rep) }()
 		select {
 		case r := <-ch:
 			return r
@@ -401,23 +410,28 @@ func VerifClosedMain(args []string) int {
 			for _, in := range []bool{false, true} {
 				for _, outp := range []bool{false, true} {
 					for _, reuse := range []bool{false, true} {
-						for _, meth := range vcMethods {
-							argv := []int{4}
-							switch meth {
-							case "next", "peek", "skip", "rstr", "rbin", "slice", "read":
-								argv = []int{4, 20, 0}
-							case "until":
-								argv = []int{255, int(vGenByte(3, 6))}
-							}
-							for _, arg := range argv {
-								for _, rep := range []int{1, 2} {
-									k++
-									if k%*shards != *shard {
-										continue
+						for _, tmo := range []bool{false, true} {
+							for _, meth := range vcMethods {
+								if tmo && reuse {
+									continue // the two dimensions are independent; not crossed to keep the table small
+								}
+								argv := []int{4}
+								switch meth {
+								case "next", "peek", "skip", "rstr", "rbin", "slice", "read":
+									argv = []int{4, 20, 0}
+								case "until":
+									argv = []int{255, int(vGenByte(3, 6))}
+								}
+								for _, arg := range argv {
+									for _, rep := range []int{1, 2} {
+										k++
+										if k%*shards != *shard {
+											continue
+										}
+										line := fmt.Sprintf("cell %s %s %s %s %s %s %s %d %d", mode, b2s(cb), b2s(in), b2s(outp), b2s(reuse), b2s(tmo), meth, arg, rep)
+										fmt.Fprintln(ow, line)
+										fmt.Fprintln(iw, runLine(line))
 									}
-									line := fmt.Sprintf("cell %s %s %s %s %s %s %d %d", mode, b2s(cb), b2s(in), b2s(outp), b2s(reuse), meth, arg, rep)
-									fmt.Fprintln(ow, line)
-									fmt.Fprintln(iw, runLine(line))
 								}
 							}
 						}
